@@ -29,6 +29,20 @@
    Time and durations: Z nanoseconds.  [ttl] is the value of
    time.Duration(float64(time.Second) * ttlSec): the float product/truncation
    is not modelled (the harness only uses ttlSec = m/512 s, where it is exact).
+   [ttl] ranges over ALL of Z.  Zero and negative values do occur (absolute-epoch
+   retry-after instant that is not in the future when the response arrives,
+   relative retry-after <= 0, ttl_seconds: 0 or omitted -- the configuration
+   does not validate it) and the code treats them like any other: the entry is
+   stored with expiry = tb + ttl, counted in the size, given a sleeper
+   (Sleep of a non-positive duration), and answered by Get/Has only while
+   [t <= tb + ttl]: for ttl = 0 at the clock reading [tb] itself, for ttl < 0
+   never; it stays physically held (mask, size) until a sleeper, Del or a
+   later Set of the key removes/replaces it.  There is no "0 = no expiry"
+   convention anywhere.
+   Absolute-epoch retry-after: the model's instant [ra] is
+   now + trunc((header - now) as time.Duration) (truncation towards zero),
+   = the header value itself on the 1/512 s grid; off the grid the harness
+   only uses instants in the past of [now] half a ns away from the truncation.
    Sizes: Z (cache level: abstract units; caching plugin: bytes = MB * 2^20,
    exact in float64 for the magnitudes used).
 
